@@ -396,9 +396,12 @@ def f30_shape(src_bytes, g, m):
         return False
     # placeable depth at the start of every line (a placeable may span lines; its inner lines are not lines of the pattern)
     all_lines = logical_lines(src)
-    depth_at, d, in_str = [], 0, False
+    # (a variant key may span lines - `[` blank? key blank? `]` with line ends in the blanks: a line that starts INSIDE the
+    # brackets is the tail of a variant header, not a continuation line of a pattern)
+    depth_at, key_open_at, d, in_str, key_open = [], [], 0, False, False
     for ln in all_lines:
         depth_at.append(d)
+        key_open_at.append(key_open)
         i = 0
         while i < len(ln):
             ch = ln[i]
@@ -413,11 +416,16 @@ def f30_shape(src_bytes, g, m):
                 d += 1
             elif ch == "}":
                 d = max(0, d - 1)
+            elif ch == "[" and d > 0 and ln[:i].strip(" ") in ("", "*"):
+                key_open = True
+            elif ch == "]":
+                key_open = False
             i += 1
         in_str = False                     # a string literal does not span lines
     keep = [k for k, l in enumerate(all_lines) if l.strip(" ") != ""]
     lines = [all_lines[k] for k in keep]
     depth = [depth_at[k] for k in keep]
+    key_tail = [key_open_at[k] for k in keep]
     headers = ("[", "*", ".")
     best = 0
     cr_only = [re.fullmatch(r"( +)\r[\r ]*", ln) for ln in lines]
@@ -443,7 +451,7 @@ def f30_shape(src_bytes, g, m):
             l = lines[t]
             if depth[t] > depth[a]:
                 continue                   # inside a placeable of an earlier line of this pattern
-            if depth[t] < depth[a] or not l.startswith(" ") or l.lstrip(" ").startswith(headers):
+            if depth[t] < depth[a] or not l.startswith(" ") or l.lstrip(" ").startswith(headers) or key_tail[t]:
                 break
             kept.append(len(l) - len(l.lstrip(" ")))
         if kept and k < min(kept):
